@@ -191,7 +191,8 @@ def onIds (t : Table) (p : Pred) : Nat → List (List Row) → List Nat
     (match pageDecision validUtf8 PREFIX t.cols page p with
      | .F => []
      | .T => (List.range page.length).map (· + off)
-     | _ => ((List.range page.length).filter (fun i => sat (page.getD i []) p)).map (· + off))
+     | _ => ((List.range page.length).filter (fun i =>
+         satS (pageGuars validUtf8 PREFIX t.cols page) (page.getD i []) p)).map (· + off))
     ++ onIds t p (off + page.length) rest
 
 def bad : String := "err parse"
